@@ -301,6 +301,8 @@ def _zb(x):
 
 
 def _wrap_arith(z):
+    if not _o_isinstance(z, z3.ExprRef):
+        return z
     if z.sort() == z3.IntSort():
         return SymInt(z)
     return SymReal(z)
@@ -421,6 +423,9 @@ def _truediv(a, b):
     rb = z3.ToReal(b) if b.sort() == z3.IntSort() else b
     if z3.is_int_value(b) or z3.is_rational_value(b):
         return ra / rb
+    if (z3.is_int_value(a) or z3.is_rational_value(a)) and ENG.mode == "sym" and not ENG.feasible(rb <= 0):
+        # constant / positive symbolic value: kept as a quotient object that can only be ordered / compared
+        return SymQuot(ra, rb)
     if ALLOW_NONLINEAR_DIV:
         # harness opted in: division by a symbolic (non-zero) value, handed to z3's nonlinear real arithmetic
         if ENG.mode == "sym" and ENG.feasible(rb == 0):
@@ -588,6 +593,83 @@ class SymReal:
 
     def __repr__(self):
         return "SymReal(%s)" % self.z
+
+
+class SymQuot:
+    """constant / positive symbolic value; supports ordering and equality against another SymQuot or a constant by
+    cross-multiplication (linear), nothing else"""
+    __slots__ = ("num", "den")
+    _sx_sym = True
+
+    def __init__(self, num, den):
+        self.num, self.den = num, den
+
+    def _pair(self, o):
+        if type(o) is SymQuot:
+            return o.num, o.den
+        zo = _zi(o)
+        if zo is not None and (z3.is_int_value(zo) or z3.is_rational_value(zo)):
+            return (z3.ToReal(zo) if zo.sort() == z3.IntSort() else zo), z3.RealVal(1)
+        return None
+
+    def _cmp(self, o, op):
+        p = self._pair(o)
+        if p is None:
+            return NotImplemented
+        return SymBool(op(self.num * p[1], p[0] * self.den))
+
+    def __lt__(self, o):
+        return self._cmp(o, operator.lt)
+
+    def __le__(self, o):
+        return self._cmp(o, operator.le)
+
+    def __gt__(self, o):
+        return self._cmp(o, operator.gt)
+
+    def __ge__(self, o):
+        return self._cmp(o, operator.ge)
+
+    def __eq__(self, o):
+        return self._cmp(o, operator.eq)
+
+    def __ne__(self, o):
+        return self._cmp(o, operator.ne)
+
+    def __hash__(self):
+        return 0
+
+
+class SymRecip:
+    """a positive real given by its reciprocal: `c / SymRecip(inv)` is the linear term c * inv. Used where the code under
+    test only ever divides a constant by the value (hmmer.remove_overlapping: cutoff / score)."""
+    __slots__ = ("inv",)
+    _sx_sym = True
+
+    def __init__(self, inv):
+        self.inv = inv.z if type(inv) is SymReal else inv
+
+    def __rtruediv__(self, o):
+        zo = _zi(o)
+        if zo is None or not (z3.is_int_value(zo) or z3.is_rational_value(zo)):
+            raise Concretised("SymRecip supports only constant / value")
+        return SymReal((z3.ToReal(zo) if zo.sort() == z3.IntSort() else zo) * self.inv)
+
+    def __eq__(self, o):
+        if type(o) is SymRecip:
+            return SymBool(self.inv == o.inv)
+        return NotImplemented
+
+    def __ne__(self, o):
+        if type(o) is SymRecip:
+            return SymBool(self.inv != o.inv)
+        return NotImplemented
+
+    def __hash__(self):
+        return 0
+
+    def __repr__(self):
+        return "SymRecip(%s)" % self.inv
 
 
 def _int_from_text(text):
